@@ -607,6 +607,105 @@ def external_replacement_level(ctx):
                 ctx.violation("an item file replaced by other means (%s) keeps its old ETag" % kind, case)
 
 
+class _CoarseStat:
+    """a stat result whose time stamps have one-second granularity (FAT, some NFS exports, ext3, restored trees)"""
+
+    def __init__(self, st):
+        self._st = st
+
+    def __getattr__(self, name):
+        return getattr(self._st, name)
+
+    @property
+    def st_mtime_ns(self):
+        return self._st.st_mtime_ns // 1_000_000_000 * 1_000_000_000
+
+    @property
+    def st_mtime(self):
+        return float(int(self._st.st_mtime))
+
+
+class _CoarseOS:
+    def __init__(self, real):
+        self._real = real
+
+    def __getattr__(self, name):
+        return getattr(self._real, name)
+
+    def stat(self, *a, **kw):
+        return _CoarseStat(self._real.stat(*a, **kw))
+
+
+def coarse_clock_level(ctx, prop="C13"):
+    """all writes go through the server, the file system keeps whole seconds only: several uploads of one name land in one tick with
+    the same size.  The entry written by the latest upload is the one that counts - what is read back (body, ETag through GET,
+    PROPFIND and REPORT, export) is the latest upload, with the cache kept and with it removed."""
+    import radicale.storage.multifilesystem.get as rget
+    import radicale.storage.multifilesystem.upload as rupload
+    rng = ctx.rng("coarse")
+    mods = [m for m in (rget, rupload) if hasattr(m, "os")]
+    saved = [(m, m.os) for m in mods]
+    try:
+        for m in mods:
+            m.os = _CoarseOS(m.os)
+        for i in range(ctx.n(12, 300)):
+            mode_stat = rng.random() < 0.75
+            item_sub = rng.random() < 0.3
+            with App({"storage": {"use_mtime_and_size_for_item_cache": str(mode_stat), "use_cache_subfolder_for_item": str(item_sub)},
+                      "auth": {"type": "none"}}) as app:
+                app.request("MKCALENDAR", "/u/c/", login="u:pw")
+                steps = []
+                last = {}
+                for k in range(rng.randint(2, 6)):
+                    href = rng.choice(["a.ics", "a.ics", "b.ics"])
+                    if rng.random() < 0.15 and href in last:
+                        st, _, _ = app.request("DELETE", "/u/c/" + href, login="u:pw")
+                        steps.append(["DELETE", href, st])
+                        last.pop(href, None)
+                        continue
+                    body = ev(href[0], rng.randint(0, 9))        # equal sizes: one digit differs
+                    st, hd, _ = app.request("PUT", "/u/c/" + href, body, login="u:pw", CONTENT_TYPE="text/calendar")
+                    steps.append(["PUT", href, body.split("SUMMARY:")[1][:6], st])
+                    if st in (201, 204):
+                        last[href] = (body, hd.get("ETag"))
+                    if rng.random() < 0.5:
+                        app.request("GET", "/u/c/" + href, login="u:pw")
+                case = {"keying": "mtime+size" if mode_stat else "hash", "item_cache_subfolder": item_sub, "file system": "time stamps in whole seconds",
+                        "steps": steps}
+                reads = {}
+                for label in ("cache kept", "cache removed"):
+                    if label == "cache removed":
+                        for root, dirs, _ in os.walk(app.folder):
+                            for d in list(dirs):
+                                if d == ".Radicale.cache":
+                                    # items only: histories and sync tokens are not the item cache
+                                    shutil.rmtree(os.path.join(root, d, "item"), ignore_errors=True)
+                    out = {}
+                    for href, v in last.items():
+                        if href == "__whole__":
+                            continue
+                        st, hd, text = app.request("GET", "/u/c/" + href, login="u:pw")
+                        out[href] = (st, hd.get("ETag"), (text or "").split("SUMMARY:")[1][:6] if "SUMMARY:" in (text or "") else None)
+                    st, _, text = app.request("GET", "/u/c/", login="u:pw")
+                    out["export"] = sorted(re.findall(r"SUMMARY:[^\r\n]*", text or ""))
+                    reads[label] = out
+                ctx.case("%s:coarse-clock:%s" % (prop, case["keying"]), sample=dict(case, reads=str(reads)[:300]), key=["coarse", i], nontrivial=mode_stat)
+                if reads["cache kept"] != reads["cache removed"]:
+                    ctx.violation("on a file system with whole-second time stamps what is read back depends on the item cache: %s with the cache, %s without"
+                                  % (reads["cache kept"], reads["cache removed"]), case)
+                for href, v in last.items():
+                    if href == "__whole__":
+                        continue
+                    body, put_etag = v
+                    got = reads["cache kept"].get(href)
+                    want = body.split("SUMMARY:")[1][:6]
+                    if got and (got[0] != 200 or got[2] != want or (put_etag and got[1] != put_etag)):
+                        ctx.violation("the latest upload of %s (%r, ETag %s) is not what GET returns: %s" % (href, want, put_etag, got), case)
+    finally:
+        for m, o in saved:
+            m.os = o
+
+
 def run(ctx):
     ctx.extra["rule"] = ("paired histories of 15-60 steps on two calendars: PUT / GET / DELETE / MOVE (inside, across, over existing names) / whole "
                          "PUT / calendar-query with data / PROPFIND / external edits (valid, broken, removed) on both sides; on the side under test "
@@ -623,3 +722,4 @@ def run(ctx):
         run_history(ctx, rng, h, rng.randint(15, 60))
     witness_f5(ctx)
     external_replacement_level(ctx)
+    coarse_clock_level(ctx)
